@@ -150,6 +150,11 @@ class NetWorld(object):
     if far is None or not self.link_up.get(key, False) or ns.silent:
       return
     self.transmit(far, raw)
+    hook = self.on_transmit
+    if hook is not None and hook(ns.dpid, port, raw):
+      self.on_transmit = None
+
+  on_transmit = None      # harness hook: (dpid, port, frame) -> done?
 
   def transmit(self, far, raw):
     sim = self.sim
